@@ -1203,6 +1203,55 @@ func (f *Frugal) validateTypedefs() error {
 				typedef.Name, typedef.Type.Name)
 		}
 	}
+	return f.validateTypedefCycles()
+}
+
+// validateTypedefCycles rejects typedefs that alias themselves, directly,
+// through other typedefs of this file or through container element types.
+// Includes form a DAG and are validated on their own, so a cycle can only be
+// made of typedefs of one file.
+func (f *Frugal) validateTypedefCycles() error {
+	index := make(map[string]*TypeDef, len(f.Typedefs))
+	for _, typedef := range f.Typedefs {
+		index[typedef.Name] = typedef
+	}
+	const visiting, done = 1, 2
+	state := make(map[string]int, len(f.Typedefs))
+	var visitType func(t *Type) error
+	visit := func(typedef *TypeDef) error {
+		switch state[typedef.Name] {
+		case done:
+			return nil
+		case visiting:
+			return fmt.Errorf("Invalid alias %s, the typedef refers to itself", typedef.Name)
+		}
+		state[typedef.Name] = visiting
+		if err := visitType(typedef.Type); err != nil {
+			return err
+		}
+		state[typedef.Name] = done
+		return nil
+	}
+	visitType = func(t *Type) error {
+		if t == nil {
+			return nil
+		}
+		if t.IsContainer() {
+			if err := visitType(t.KeyType); err != nil {
+				return err
+			}
+			return visitType(t.ValueType)
+		}
+		if typedef, ok := index[t.Name]; ok && t.IncludeName() == "" {
+			return visit(typedef)
+		}
+		return nil
+	}
+	for _, typedef := range f.Typedefs {
+		if err := visit(typedef); err != nil {
+			return err
+		}
+	}
 	return nil
 }
 
